@@ -178,6 +178,7 @@ def C16.Requested (s : Sess) (i : Nat) (req : Request) : View → Bytes → Prop
 def C16.counted (s : Sess) (i : Nat) : View → Sess
   | .sendUpdate => s.bumpSent i incUpdates
   | .sendRouteRefresh => s.bumpSent i incRouteRefresh
+  | .sendBinUpdate => s.bumpSent i incUpdates
   | _ => s
 
 /-- A send endpoint that reports success, on a session whose tracked connection `i` is up: the request carried valid
@@ -248,7 +249,7 @@ theorem C16_faithful (rc : RestCfg) (r : Route) (hr : r ∈ genRoutes) (hsend : 
           obtain ⟨o, b, hb, hbin, hres⟩ := viewSendBinUpdate_success hn hok
           refine ⟨b, ⟨o, hb, hbin⟩, ?_, ?_⟩
           · rw [hres]; by_cases hbe : b = [] <;> simp [hbe, counted]
-          · rw [hres]; by_cases hbe : b = [] <;> simp [hbe, emit]
+          · rw [hres]; by_cases hbe : b = [] <;> simp [hbe, emit, bumpSent, setConn, withConns]
       · rw [h.2] at hok; cases hok
   · simp only [hm, not_false_eq_true, if_true] at hok
     have hst := stripHead_success req _ hok
